@@ -370,7 +370,11 @@ def run(tier, seed, replay=None):
     if counts and nun and not replay:
         encs = [",".join(rt_tree(r, r.randint(1, 5 if tier == "quick" else 7), counts, nun)) for _ in range(1500 if tier == "quick" else 12000)]
         encs = sorted(set(encs))
-        mo = run_model(model, ["milu_rt " + e for e in encs])
+        # every other tree is printed with an independently chosen non-empty blank filler in every token gap
+        pool = [b" ", b"  ", b"\t", b"\n", b"\r\n", b" /* c */ ", b"/**/", b"# x\n", b"#\n", b" # y ( + ] \n ", b"/* a * b / c */", b"\n\n\t "]
+        def fillers():
+            return ",".join(r.choice(pool).hex() for _ in range(60))
+        mo = run_model(model, ["milu_rt " + e + (" " + fillers() if i % 2 else "") for i, e in enumerate(encs)])
         good = [(e, o.split(" ", 2)) for e, o in zip(encs, mo) if o.startswith("OK ")]
         io = run_impl(driver, ["milu_parse " + g[1][1] for g in good])
         for (e, parts), oi in zip(good, io):
@@ -394,7 +398,7 @@ def run(tier, seed, replay=None):
         "evaluations": len(cases), "distinct_nontrivial": nt,
         "rule": "every documented operator alone; every ordered pair of binary/unary/postfix/conditional operators in both tree shapes; every ordered triple over one spelling per precedence level (all spellings in the thorough tier); random trees to depth 5; each tree in minimal-spaced, minimal-tight, fully parenthesised and blank/comment-filled spelling; plus a lexical edge list compared with the model only; non-trivial = distinct source with an expected tree",
         "input_distribution": dist, "model_impl_disagreements": n_diff,
-        "roundtrip_printer_cases": n_rt, "roundtrip_tree_size_deciles": dict(rt_sizes),
+        "roundtrip_printer_cases": n_rt, "roundtrip_printer_cases_with_random_fillers": n_rt // 2, "roundtrip_tree_size_deciles": dict(rt_sizes),
         "samples": [dict(source=bytes.fromhex(cases[i][1].split(" ")[1]).decode("utf-8", "replace")[:100] if cases[i][1].split(" ")[1] != "-" else "", impl=impl[i][:120]) for i in range(0, len(cases), max(1, len(cases) // 6))][:6],
     })
     rep.assumptions = ["template strings (backticks) are outside the parser model and the generator",
